@@ -215,7 +215,7 @@ def run(ctx):
                     continue
                 used += 1
                 pl = R.part_len
-                tot = agg_field(R.part_iter, 'num_points')
+                tot = layout.part_iter_total(R.part_iter)
                 if not (pl[0] == 'bin' and pl[1] == 'Sub' and tot == R.np_ret):
                     ok = False
         ctx.ob("C01.parts", "reader part lengths", ok and used >= 6, "points per part = end - start of the iterator item, total = NumPoints read (%d reader paths)" % used,
@@ -277,21 +277,12 @@ def run(ctx):
                 table[comp] = None
         ctx.ob("C01.ring", "reader classification", table == {'Outer': 'Outer', 'Inner': 'Inner'},
                "computed orientation -> ring role: %s (vertices kept as read)" % table, site=ctx.site_of(F, f["def"]), key="C01.ring|from-vec")
-        # same orientation function as the constructors
-        cs = set()
-        for g in (f,):
-            for b, t in mir.calls(g):
-                d = mir.callee_def(t)
-                if d and 'ring_type' in d:
-                    cs.add(d.split('<')[0].split('::<')[0])
-        cr = [g for g in F.identity_fns() if g["def"].endswith("::correctly_order_points")]
-        cs2 = set()
-        for g in cr:
-            for b, t in mir.calls(g):
-                d = mir.callee_def(t)
-                if d and 'ring_type' in d:
-                    cs2.add(d.split('<')[0].split('::<')[0])
-        ctx.ob("C01.ring", "same orientation function", bool(cs) and (not cr or cs == cs2),
+        # same orientation function as the constructors (found by role: the functions summing over windows(..) of a ring)
+        ofs = set(g["def"] for g in util.orientation_fns(F))
+        cs = util.reachable_defs(F, f) & ofs
+        wr_ = F.inherent_method("record::polygon::GenericPolygon", "with_rings")
+        cs2 = (util.reachable_defs(F, wr_[0]) & ofs) if wr_ else set()
+        ctx.ob("C01.ring", "same orientation function", len(cs) == 1 and cs == cs2,
                "reader uses %s, constructors use %s" % (sorted(cs), sorted(cs2)), key="C01.ring|same-fn")
         conv = None
         for imp in F.trait_impls("std::convert::From"):
